@@ -51,6 +51,9 @@ T = {
     "C14": ("relational monitor over access paths x option product on the OpenMP and the serial build: reported (D, w, e) must satisfy D e = w^2 e; run_qpoints 2^3 options, band paths (with/without connection, NAC direction at Gamma), Mesh, IterMesh, dynamical_matrix.run, get_frequencies*; yaml/hdf5 parsed back at the printed precision measured from the text",
             "Held on the executions produced: 14 zoo crystals x supercells x NAC none/Wang/Gonze-Lee x full/compact x both builds (both arms of QpointsPhonon._run are executed and counted).",
             "eigenvalues (not frequencies) compared; eigenvectors only through residuals/orthonormality; hdf5 must be bit-identical", "3/C14"),
+    "C15": ("history monitor: recorded API histories (call event before, outcome after) compared with a fresh-object replay model built from the final state; aliasing monitor: checksums of every caller array across the history, mutation of every handed-out array followed by re-query",
+            "Held on the executions produced: ALL histories of length <= 2 (quick) / <= 3 (thorough) over a 14-operation alphabet from three initial states (no NAC, Wang, Gonze-Lee) plus random histories of length 4..8; 12 aliasing probes per cell/initial state. Three documented/deliberate reference-semantics behaviours are listed as known findings.",
+            "reference = the real class freshly constructed; operations that raise are recorded as outcomes", "3/C15"),
 }
 
 NA_REASON = "check not built yet in this round (runtime-monitoring driver pending); no claim is made"
